@@ -27,6 +27,33 @@ class MachineryError(Exception):
     pass
 
 
+class Raised:
+    """Marker for 'the code under test raised': never equal to any expected value."""
+
+    def __init__(self, exc):
+        self.text = '%s: %s' % (type(exc).__name__, str(exc)[:200])
+
+    def __repr__(self):
+        return 'Raised(%s)' % self.text
+
+    def __eq__(self, other):
+        return False
+
+    def __ne__(self, other):
+        return True
+
+    def __float__(self):
+        return float('nan')
+
+
+def guarded(fn, *a, **k):
+    """Call code under test; an exception is an observation (Raised), not a harness crash."""
+    try:
+        return fn(*a, **k)
+    except Exception as e:   # noqa
+        return Raised(e)
+
+
 class TlcResult:
     def __init__(self):
         self.generated = 0
